@@ -496,6 +496,39 @@ def p11(led, rid, ctx):
     led.floor(rid, "tagged root-propagation batches", n, 1)
 
 
+def p12(led, rid, ctx):
+    """a root-level antecedent that conflict analysis or minimisation skips is explained to the
+    proof (its unit nogood becomes a hint / is logged): MUST-PASS on the `level == 0` edge"""
+    lib = ctx.lib
+    n = 0
+    for f in lib.fns.values():
+        if "/conflict_analysis/" not in f.file or "/tests" in f.file:
+            continue
+        cfg = f.cfg
+        ex = f.calls_named("explain_root_assignment")
+        for bb in cfg.edges:
+            for fa in edge_facts(f, bb):
+                rf = rel_fact(fa)
+                if not rf or rf[0] != "Eq":
+                    continue
+                a, b = peel(rf[1], calls=None), peel(rf[2], calls=None)
+                if a.k == "const":
+                    a, b = b, a
+                if not (b.k == "const" and b.a == 0):
+                    continue
+                if not any(c.name == "get_decision_level_for_predicate" for c in a.calls()):
+                    continue
+                n += 1
+                ok = any(cfg.dominates(fa.edge.node, c.bb) for c in ex)
+                who = (f.parent or f.defn).rsplit("::", 1)[-1] if f.kind == "Closure" else f.name
+                led.check(ok, rid, "%s:root-antecedent-explained" % who, "%s:%d" % (f.file, f.blocks[bb]["line"]),
+                          "explain_root_assignment on the level-0 edge",
+                          "%s skips a predicate that holds at the root without calling explain_root_assignment: "
+                          "the inference it just logged depends on a unit nogood the proof does not reference "
+                          "(with hints, the learned nogood is not derivable from its hints)" % who)
+    led.floor(rid, "root-level skips in conflict analysis", n, 2)
+
+
 def run(ctx, led):
     run_rule(led, "P1", "every reason that is computed for use is logged as an inference (MUST-PASS)", p1, ctx)
     run_rule(led, "P2", "complete_proof logs the conflict, finalises, and ends with the empty nogood", p2, ctx)
@@ -510,3 +543,4 @@ def run(ctx, led):
     run_rule(led, "P9", "polarity TABLE of predicates over reification literals (decided on the domain {0,1})", p9, ctx)
     run_rule(led, "P10", "the premises of every logged inference are the complete explanation (no selecting adaptor between the explanation and log_inference)", p10, ctx)
     run_rule(led, "P11", "tagged root-propagation batches start at a trail length read after the previous propagator (MUST-PASS on the loop)", p11, ctx)
+    run_rule(led, "P12", "root-level antecedents skipped by analysis / minimisation are explained to the proof (MUST-PASS)", p12, ctx)
